@@ -185,18 +185,19 @@ Proof.
   all: apply init_elf_good; exact Heh.
 Qed.
 
-Lemma walk_notes_good alim f be : forall segs, good (walk_notes alim f be segs).
+Lemma walk_notes_good alim f flen be : forall segs, good (walk_notes alim f flen be segs).
 Proof.
   induction segs as [|sg rest IH]; cbn [walk_notes]; [auto|].
+  destruct (negb _); [auto|].
   destruct (get_chunk_cases alim f (of_off (sg_filesz sg)) (sg_off sg)) as [[c [H _]]|[st [H Hs]]];
     rewrite H; [|now apply good_chunk_err].
   destruct (do_notes_in_bounds be c) as [l [Hl _]]. rewrite Hl. cbn [bind].
   apply good_bind; [exact IH|auto].
 Qed.
 
-Theorem elf_probe_good : forall alim f, good (elf_probe alim f).
+Theorem elf_probe_good : forall alim f flen, good (elf_probe alim f flen).
 Proof.
-  intros alim f. unfold elf_probe.
+  intros alim f flen. unfold elf_probe.
   destruct (get_chunk_cases alim f 64 0) as [[eh [H [Hl _]]]|[st [H Hs]]]; rewrite H; cbn [bind];
     [|now apply good_chunk_err].
   apply good_bind; [apply do_probe_good; exact Hl|].
@@ -206,7 +207,7 @@ Qed.
 
 (** the statuses the modelled part of the probe can return: an error status
     of the documented set, or the internal KDUMP_NOPROBE for a wrong signature *)
-Theorem elf_probe_status : forall alim f st stg,
-  elf_probe alim f = Err st stg ->
+Theorem elf_probe_status : forall alim f flen st stg,
+  elf_probe alim f flen = Err st stg ->
   is_error st = true /\ (st = KNOPROBE -> stg = StSignature).
-Proof. intros alim f st stg H. exact (proj2 (proj2 (elf_probe_good alim f)) st stg H). Qed.
+Proof. intros alim f flen st stg H. exact (proj2 (proj2 (elf_probe_good alim f flen)) st stg H). Qed.
